@@ -293,9 +293,89 @@ def _shift(op, x, y, bits, signed, ybits, ysigned):
     return r
 
 
+VAR_BOUNDS = {}  # z3 const name -> (lo, hi): registered by the executor for bounded nondets (lengths etc.)
+_BOUNDS_MEMO = {}
+
+
+def term_bounds(t, depth=0):
+    """cheap interval analysis for signed 64-bit terms built from numerals, ite, +, - and registered bounded
+    constants. Returns (lo, hi) or None. Only sound when no wrap-around occurs, which holds for the small
+    ranges involved (results outside +-2^40 are discarded)."""
+    if isinstance(t, int):
+        return (t, t)
+    i = t.get_id()
+    m = _BOUNDS_MEMO.get(i)
+    if m is not None:
+        return m[1]
+    r = None
+    if depth < 40 and z3.is_bv(t) and t.size() == 64:
+        if z3.is_bv_value(t):
+            v = t.as_signed_long()
+            r = (v, v)
+        elif z3.is_const(t):
+            r = VAR_BOUNDS.get(t.decl().name())
+        else:
+            k = t.decl().kind()
+            if k == z3.Z3_OP_ITE:
+                a = term_bounds(t.arg(1), depth + 1)
+                b = term_bounds(t.arg(2), depth + 1) if a is not None else None
+                if a is not None and b is not None:
+                    r = (min(a[0], b[0]), max(a[1], b[1]))
+            elif k == z3.Z3_OP_BADD:
+                lo = hi = 0
+                ok = True
+                for c in t.children():
+                    b = term_bounds(c, depth + 1)
+                    if b is None:
+                        ok = False
+                        break
+                    lo += b[0]
+                    hi += b[1]
+                if ok:
+                    r = (lo, hi)
+            elif k == z3.Z3_OP_BSUB and t.num_args() == 2:
+                a = term_bounds(t.arg(0), depth + 1)
+                b = term_bounds(t.arg(1), depth + 1) if a is not None else None
+                if a is not None and b is not None:
+                    r = (a[0] - b[1], a[1] - b[0])
+        if r is not None and (r[0] < -(1 << 40) or r[1] > (1 << 40)):
+            r = None
+    _BOUNDS_MEMO[i] = (t, r)  # keep t alive so its ast id cannot be reused
+    return r
+
+
 def int_cmp(op, x, y, bits, signed):
     if isinstance(x, int) and isinstance(y, int):
         return {"==": x == y, "!=": x != y, "<": x < y, "<=": x <= y, ">": x > y, ">=": x >= y}[op]
+    if bits == 64 and signed and (isinstance(x, int) or isinstance(y, int)):
+        bx, by = term_bounds(x), term_bounds(y)
+        if bx is not None and by is not None:
+            if op == "<":
+                if bx[1] < by[0]:
+                    return True
+                if bx[0] >= by[1]:
+                    return False
+            elif op == "<=":
+                if bx[1] <= by[0]:
+                    return True
+                if bx[0] > by[1]:
+                    return False
+            elif op == ">":
+                if bx[0] > by[1]:
+                    return True
+                if bx[1] <= by[0]:
+                    return False
+            elif op == ">=":
+                if bx[0] >= by[1]:
+                    return True
+                if bx[1] < by[0]:
+                    return False
+            elif op == "==":
+                if bx[1] < by[0] or bx[0] > by[1]:
+                    return False
+            elif op == "!=":
+                if bx[1] < by[0] or bx[0] > by[1]:
+                    return True
     a, b = bv(x, bits), bv(y, bits)
     if op == "==":
         if a.eq(b):
